@@ -48,6 +48,12 @@ def impl_findings(after_use=False):
                                 set=s, other=seen[name][0], name=name, impl=v, other_value=seen[name][1],
                                 same_sa_table=seen[name][2] == sa))
             seen.setdefault(name, (s, v, sa))
+    for s, name, kind, v in r.get("unlisted", []):
+        t = t10_value(name, ops)
+        if kind == "exn" or (t is not None and t != v):
+            out.append(dict(kind="unlisted-name-value", id="unlisted:%s.%s" % (s, name), set=s, name=name, impl=[kind, v], t10=t,
+                            what="%s.%s is not listed in that command set but resolves to %s; T10 assigns %s to that name" % (
+                                s, name, ("%02Xh" % v) if isinstance(v, int) else v, ("%02Xh" % t) if t is not None else "nothing")))
     for name, v in r["status"]:
         if name != "SGIO_ERROR" and status.get(name) != v:
             out.append(dict(kind="status-value", id="status:%s" % name, name=name, impl=v, sam=status.get(name)))
